@@ -29,7 +29,7 @@ def run(ctx):
     ctx.audit("Slock.Properties.C16", THEOREMS)
     if ctx.tier == "thorough":
         ctx.leanchecker("Slock.Properties.C16")
-    exe = ctx.build_harness("server")
+    exe = ctx.build_harness("server", only=["zz_verif_aof_test.go", "zz_verif_aof_restart_test.go", "zz_verif_aof_rewrite_test.go"])
     if not exe:
         return
     n = 60 if ctx.tier == "quick" else 1500
